@@ -25,13 +25,13 @@ ASSUMPTIONS = ["Array.data is documented as freely modifiable shared state and i
 MUTATORS = ['invert_all', 'invert_one', 'set_all', 'set_one', 'append', 'prepend', 'insert', 'overwrite', 'del_slice', 'setitem', 'setslice',
             'replace', 'reverse', 'rol', 'ror', 'byteswap', 'ilshift', 'irshift', 'imul', 'iand', 'ior', 'ixor', 'clear', 'iadd', 'prop_uint',
             'prop_bin', 'prop_hex', 'prop_bits', 'prop_bytes', 'ilshift_all', 'irshift_all', 'iand_zeros', 'ior_ones', 'imul_one', 'set_all_then_invert', 'setslice_all', 'setslice_all',
-            'setslice_tail', 'setslice_all_literal']
+            'setslice_tail', 'setslice_all_literal', 'prop_named_len', 'prop_named_len']
 DERIVES = ['ctor_Bits', 'ctor_BitArray', 'ctor_ConstBitStream', 'ctor_BitStream', 'kw_bits', 'set_bits_prop', 'get_bits_prop', 'copycopy',
            'copy_method', 'slice_all', 'slice_part', 'slice_step', 'add', 'radd_str', 'mul', 'invert', 'and_self', 'or', 'xor', 'lshift', 'rshift',
            'join', 'join_empty', 'fromstring', 'literal', 'literal_other_cls', 'pack_bits', 'pack_kw', 'pack_token_kw', 'dtype_build', 'dtype_parse',
            'read', 'readlist', 'cut', 'split', 'array_from', 'tobitarray', 'tobitarray_roundtrip', 'unpack_bits', 'deepcopy', 'auto_from_bitarray',
            'and_same', 'add_empty_left', 'add_empty_right', 'add_empty_left_literal', 'mul_one', 'lshift0', 'rshift0', 'and_ones', 'cut_whole',
-           'split_nomatch', 'radd_empty_str', 'join_single_self_empty', 'empty_append', 'empty_prepend', 'empty_iadd', 'empty_insert', 'empty_setslice',
+           'split_nomatch', 'radd_empty_str', 'join_single_self_empty', 'array_trailing_only', 'empty_append', 'empty_prepend', 'empty_iadd', 'empty_insert', 'empty_setslice',
            'empty_overwrite0', 'whole_setslice', 'cleared_append', 'cleared_prepend', 'empty_replace_all', 'empty_imul_then_append', 'empty_append_literal', 'empty_prepend_literal']
 ARRAY_DERIVES = ['arr_slice', 'arr_copy', 'arr_from_arr', 'arr_slice_step', 'arr_astype', 'arr_data_copy', 'arr_extend_into_new']
 SOURCE_KINDS = ['bytearray', 'memoryview', 'array', 'bitarray', 'bytesio', 'list', 'memoryview_ro', 'memoryview_slice', 'memoryview_kw', 'memoryview_cast',
@@ -55,7 +55,7 @@ RECIPES = ([(nm, None, v) for nm in ('mxint', 'e4m3mxfp', 'e5m2mxfp', 'e2m1mxfp'
            + [('bin', None, v) for v in ('', '0', '1', '00', '11', '01111111', '10000000')]
            + [('bytes', None, v) for v in (b'', b'\x00', b'\xff', b'\x7f', b'\x80')]
            + [('zeros', None, v) for v in (0, 1, 7, 8, 9, 64)])
-KW_VIAS = ['ctor', 'setter', 'pack', 'token', 'fromstring_token', 'dtype_build', 'ctor_named_len', 'array_item']
+KW_VIAS = ['ctor', 'setter', 'setter_named_len', 'pack', 'token', 'fromstring_token', 'dtype_build', 'ctor_named_len', 'array_item']
 
 
 class Entry:
@@ -183,6 +183,10 @@ class World:
             if via == 'setter' and cls in MUTABLE:
                 o = c() if n is None else c(n)
                 setattr(o, name, v)
+                return o
+            if via == 'setter_named_len' and cls in MUTABLE and n is not None and name != 'zeros':
+                o = c('0b1')
+                setattr(o, f'{name}{n}', v)
                 return o
             if via == 'pack':
                 return bs.pack(tok, v)
@@ -422,6 +426,13 @@ class World:
             arr = bs.Array('uint8' if a % 2 else 'int4', x)
             self.add(arr, 'arr', 'Array')
             return
+        elif how == 'array_trailing_only':
+            # an Array that holds no items, only trailing bits taken from x (or from the literal of x)
+            tb = x if a % 3 else (('0b' + xb) if xb else '')
+            init = [None, 0, []][b % 3]
+            arr = bs.Array('uint64' if a % 2 else 'float64', init, trailing_bits=tb) if init is not None else bs.Array('uint64', trailing_bits=tb)
+            self.add(arr, 'arr', 'Array')
+            return
         elif how == 'tobitarray':
             self.add(x.tobitarray(), 'ba', 'bitarray')
             return
@@ -523,6 +534,11 @@ class World:
                 x >>= 1 + a % 3
             elif how == 'imul':
                 x *= a % 3
+            elif how == 'prop_named_len':
+                # assignment through an attribute name that carries the length (u12, float32, hex8, bin5 ...)
+                nm, val = [('u12', 5), ('i9', -3), ('float32', 0.5), ('hex8', 'a5'), ('bin5', '10110'), ('uint64', 2 ** 63 + 1), ('bytes2', b'ab'), ('floatle16', 1.5), ('bool', 1), ('uintle16', 258),
+                           ('e4m3mxfp', 1.5), ('oct6', '17')][a % 12]
+                setattr(x, nm, val)
             elif how == 'setslice_all':
                 x[:] = other
             elif how == 'setslice_tail':
@@ -622,8 +638,12 @@ class World:
         before = e.shadow
 
         def do():
-            m = a % 8
-            if m == 0 and len(arr):
+            m = a % 10
+            if m == 8:
+                arr.data.invert()
+            elif m == 9:
+                arr.data.append('0b1')
+            elif m == 0 and len(arr):
                 arr[b % len(arr)] = 5
             elif m == 1:
                 arr.append(3)
@@ -775,7 +795,8 @@ def chain_case(draw, tier):
     if draw(st.integers(0, 2)) == 0:
         # the source itself has just been produced by an in-place operation
         steps.append(['mutate', draw(st.sampled_from(['ilshift_all', 'irshift_all', 'iand_zeros', 'ior_ones', 'imul_one', 'set_all_then_invert', 'ilshift', 'clear', 'prop_bin', 'reverse', 'invert_all',
-                                                      'iadd', 'prop_uint'])), 0, draw(raw), draw(raw), draw(raw), draw(bits_st(max_len=12))])
+                                                      'iadd', 'prop_uint', 'prop_named_len', 'prop_named_len', 'prop_named_len', 'setslice_all', 'prop_bits', 'prop_hex', 'prop_bytes'])),
+                      0, draw(raw), draw(raw), draw(raw), draw(bits_st(max_len=12))])
     steps.append(['derive', draw(st.sampled_from(structural if draw(st.booleans()) else DERIVES)), 0, draw(raw), draw(raw), draw(raw)])
     for _ in range(draw(st.integers(1, 2))):
         k = draw(st.integers(0, 3))
